@@ -10,6 +10,14 @@ BASE = ("cd /repo && env -u TRACKLIB_VERIF_TRACE /venv/bin/python -m pytest -ra 
 
 # pid -> (module(s), technique, level text, level note, design ref)
 CHECKS = {
+    "C11": ("Split", "TLA+ definition of the pieces of a marker vector and of the threshold marker + transcriptions of split()'s "
+            "begin/count loop and segmentation()'s comparison loop, checked by TLC on all 2^n markers and all value/threshold "
+            "rows; pieces and marker columns recorded from the real functions judged by SplitTrace.tla (code->spec)",
+            "all 2^n marker vectors for n = 1..12 (thorough 14) are split for real and the pieces (identified by observation) must "
+            "concatenate to the track, each but the last ending at a mark with no interior mark, none when nothing is marked; "
+            "segmentation() is run on tracks enumerating every row over {0,1,2,NaN}^k for every threshold vector {0,1,2}^k, "
+            "k <= 3, both modes, plus random rational-valued ones, and every marker value is judged.",
+            "TLC 1.8; limit = 0; all-NaN rows in OR mode left open", "5/C11"),
     "C12": ("OptPartition", "TLA+ model: brute-force optimum over all strictly increasing lists (definition) + transcription of the "
             "interval DP and backtracking, checked by TLC for every small matrix in both directions (pinned mode tests refuted); "
             "lists recorded from optimalPartition / optimalSegmentation / optimalSimplification judged by "
